@@ -2,12 +2,21 @@
    Proved about the mirror of EntriesIter (Memfs/Walk.v), for every snapshot, option record and
    pre_op: the descriptor counter never underflows (no panic); nothing the dirs()/files() filter
    rejects is ever yielded, deferred directories included; the whole event sequence is independent
-   of max_descriptors.  PARTIAL: exactness of the yielded multiset, the order relations and
-   termination are judged on every explored case by the independent recursive specification
-   tools/walkspec.py (stream walk-valid), not yet by theorems. *)
+   of max_descriptors.  Memfs/WalkSpec.v states what a traversal denotes as a plain recursion over the
+   snapshot (visit an entry: LinkLooping if it is a followed link to a directory already open above it;
+   otherwise pre_op, the entry itself if the depth window and the filter select it - after its contents
+   with contents_first - and its children in the per-directory order, one level deeper, while the depth
+   is below max_depth), and proves that the iterator machine (iterator stack, deferred stack, one `next`
+   call per item) returns exactly the recursion's event sequence, for every snapshot, option record,
+   pre_op and start, links followed or not, whenever the recursion is defined and the fuel covers its
+   steps; Memfs/WalkTerm.v proves both always hold when links are not followed (termination within
+   fuel: at most three machine steps per entry under the start).  PARTIAL: with links followed,
+   termination is exercised (the driver also compares machine and recursion on every explored call),
+   not proved; the order relations and the exact multiset are read off the recursion and judged on
+   every explored case by tools/walkspec.py (stream walk-valid). *)
 From stdpp Require Import gmap.
 From Coq Require Import NArith.
-From RV Require Import Base.Str Path.Helpers Memfs.State Memfs.Walk Memfs.WalkFacts.
+From RV Require Import Base.Str Path.Helpers Memfs.State Memfs.Walk Memfs.WalkFacts Memfs.WalkSpec Memfs.WalkTerm.
 
 Theorem C08_walk_no_panic : forall sn o pre p, walk sn o pre p <> inl Panic.
 Proof. exact walk_no_panic. Qed.
@@ -22,3 +31,24 @@ Theorem C08_walk_cap_independent : forall sn o pre p evs cap,
   walk sn o pre p = inl (Done evs) -> walk sn (w_maxdesc o cap) pre p = inl (Done evs).
 Proof. exact walk_cap_independent. Qed.
 Print Assumptions C08_walk_cap_independent.
+
+(* the iterator machine computes the recursion: for every snapshot, options, pre_op and start *)
+Theorem C08_walk_is_recursion : forall (E : gmap (list (list N)) entry) o pre rootp r h evs,
+  E !! rootp = Some r -> sw_walk h E o pre r = Some evs ->
+  steps h E o pre [] (if o_follow o then follow_e r else r) + 1 <= walk_fuel E ->
+  length (items_of evs) + 1 < walk_fuel E ->
+  walk E o pre rootp = inl (Done evs).
+Proof. exact walk_is_spec. Qed.
+Print Assumptions C08_walk_is_recursion.
+
+(* without following links: it terminates within its fuel, with the recursion's events *)
+Theorem C08_walk_nofollow : forall (E : gmap (list (list N)) entry) o pre rootp r,
+  key_ok E -> o_follow o = false -> E !! rootp = Some r ->
+  exists h evs, sw_walk h E o pre r = Some evs /\ walk E o pre rootp = inl (Done evs).
+Proof. exact walk_nofollow. Qed.
+Print Assumptions C08_walk_nofollow.
+
+Theorem C08_walk_nofollow_terminates : forall (E : gmap (list (list N)) entry) o pre rootp,
+  key_ok E -> o_follow o = false -> walk E o pre rootp <> inl OutOfFuel.
+Proof. exact walk_nofollow_terminates. Qed.
+Print Assumptions C08_walk_nofollow_terminates.
